@@ -115,42 +115,7 @@ def run(ctx):
     if len(wr) != 1 or "pos" not in f3.describe_operand(wr[0][1]["rv"]["o"]):
         r.violate("impl|start_token_part", "Lexer::start_token_part no longer records pos()", f3.loc())
 
-    # ------------------------------------------------------------------ R16.2
-    r = ctx.rule("R16.2", "lookups: get/has/set/remove_attribute lower-case the queried name (ASCII) before encoding it, compare case-insensitively, return the first match; removal removes every duplicate; edits are visible to later reads", "E-MIR", floor=6)
-    sm.clause_eq_case_insensitive(r, mir)
-    for nm in ("Attributes::map_attribute", "Attributes::set_attribute", "Attributes::remove_attribute"):
-        f = mir.fn(nm)
-        low = [bi for bi, t in f.calls(r"to_ascii_lowercase$")]
-        nfs = [bi for bi, t in f.calls(r"Attribute::name_from_string$")]
-        key = nm + "|lowercase-query"
-        r.inst(key)
-        if len(nfs) != 1 or not low or not any(f.dominates(l, nfs[0]) for l in low):
-            r.violate(key, f"{nm} does not ASCII-lower-case the queried name before encoding it (lookups would be case-sensitive)", f.loc())
-        else:
-            d = f.describe_operand(f.blocks[nfs[0]]["term"]["args"][0])
-            if "to_ascii_lowercase" not in d:
-                r.violate(key, f"{nm}: the name given to name_from_string is `{d}`, not the lower-cased query", f.loc())
-    # comparison closure(s) use eq_case_insensitive(attr.name, query)
-    cmp_fns = [f for f in mir.fns if f.closure_suffix and f.key.startswith("Attributes::") and list(f.calls(r"eq_case_insensitive$"))]
-    r.inst("compare|closures", sample={"closures": [f.key for f in cmp_fns]})
-    if len(cmp_fns) < 3:
-        r.violate("compare|closures", "map_attribute / set_attribute / remove_attribute no longer all compare names with eq_case_insensitive", None)
-    ma = mir.fn("Attributes::map_attribute")
-    finds = [callee_key(t) for bi, t in ma.calls(r"find_map")]
-    r.inst("map_attribute|first-match", sample={"calls": finds})
-    if len(finds) != 2 or any("rev" in callee_key(t) or "rfind" in callee_key(t) or "last" in callee_key(t) for bi, t in ma.calls()):
-        r.violate("map_attribute|first-match", f"map_attribute must return the first matching attribute on both the materialised and the lazy path (find_map x2), found {finds}", ma.loc())
-    got = [bi for bi, t in ma.calls(r"OnceCell::get$|OnceCell<.*>::get$|::get$")]
-    r.inst("map_attribute|reads-edits-first")
-    if not got or not all(ma.dominates(got[0], b) for b, t in ma.calls(r"find_map")):
-        r.violate("map_attribute|reads-edits-first", "map_attribute does not consult the materialised (possibly edited) attribute list before falling back to the parsed outlines", ma.loc())
-    ra = mir.fn("Attributes::remove_attribute")
-    bulk = [callee_key(t) for bi, t in ra.calls(r"retain|extract_if|dedup")]
-    single = [bi for bi, t in ra.calls(r"Vec::remove$|swap_remove$")]
-    in_loop = [bi for bi in single if any(bi in ra.reachable_blocks(s) for s in ra.succs()[bi])]
-    r.inst("remove_attribute|all-duplicates", sample={"bulk": bulk, "single_removals": len(single), "in_loop": len(in_loop)})
-    if not bulk and (not single or len(in_loop) != len(single)):
-        r.violate("remove_attribute|all-duplicates", "remove_attribute removes at most one matching attribute (no bulk removal and the removal is not inside a loop): a duplicate of the name stays visible to has_attribute/get_attribute and in the output", ra.loc())
+    rule_attr_lookup(ctx, mir)
 
     # ------------------------------------------------------------------ R16.3
     r = ctx.rule("R16.3", "getters: name()/tag_name() -> ASCII-lower-cased decoding, *_preserve_case -> exact decoding, value() -> raw decoding; the namespace reported for a start tag is the one it was processed in (read before deferred tree-builder feedback can enter an integration point); void list", "E-MIR + E-AST", floor=6)
@@ -259,4 +224,44 @@ def clause_void_list(r, idx):
     may = must
     if not must <= voids or not voids <= may:
         r.violate("void-list", f"is_void_element: missing {sorted(must - voids)}, unexpected {sorted(voids - may)} (can_have_content would disagree with the HTML void-element list)", None)
+
+
+
+def rule_attr_lookup(ctx, mir, rid="R16.2"):
+    # ------------------------------------------------------------------ R16.2
+    r = ctx.rule(rid, "lookups: get/has/set/remove_attribute lower-case the queried name (ASCII) before encoding it, compare case-insensitively, return the first match; removal removes every duplicate; edits are visible to later reads", "E-MIR", floor=6)
+    sm.clause_eq_case_insensitive(r, mir)
+    for nm in ("Attributes::map_attribute", "Attributes::set_attribute", "Attributes::remove_attribute"):
+        f = mir.fn(nm)
+        low = [bi for bi, t in f.calls(r"to_ascii_lowercase$")]
+        nfs = [bi for bi, t in f.calls(r"Attribute::name_from_string$")]
+        key = nm + "|lowercase-query"
+        r.inst(key)
+        if len(nfs) != 1 or not low or not any(f.dominates(l, nfs[0]) for l in low):
+            r.violate(key, f"{nm} does not ASCII-lower-case the queried name before encoding it (lookups would be case-sensitive)", f.loc())
+        else:
+            d = f.describe_operand(f.blocks[nfs[0]]["term"]["args"][0])
+            if "to_ascii_lowercase" not in d:
+                r.violate(key, f"{nm}: the name given to name_from_string is `{d}`, not the lower-cased query", f.loc())
+    # comparison closure(s) use eq_case_insensitive(attr.name, query)
+    cmp_fns = [f for f in mir.fns if f.closure_suffix and f.key.startswith("Attributes::") and list(f.calls(r"eq_case_insensitive$"))]
+    r.inst("compare|closures", sample={"closures": [f.key for f in cmp_fns]})
+    if len(cmp_fns) < 3:
+        r.violate("compare|closures", "map_attribute / set_attribute / remove_attribute no longer all compare names with eq_case_insensitive", None)
+    ma = mir.fn("Attributes::map_attribute")
+    finds = [callee_key(t) for bi, t in ma.calls(r"find_map")]
+    r.inst("map_attribute|first-match", sample={"calls": finds})
+    if len(finds) != 2 or any("rev" in callee_key(t) or "rfind" in callee_key(t) or "last" in callee_key(t) for bi, t in ma.calls()):
+        r.violate("map_attribute|first-match", f"map_attribute must return the first matching attribute on both the materialised and the lazy path (find_map x2), found {finds}", ma.loc())
+    got = [bi for bi, t in ma.calls(r"OnceCell::get$|OnceCell<.*>::get$|::get$")]
+    r.inst("map_attribute|reads-edits-first")
+    if not got or not all(ma.dominates(got[0], b) for b, t in ma.calls(r"find_map")):
+        r.violate("map_attribute|reads-edits-first", "map_attribute does not consult the materialised (possibly edited) attribute list before falling back to the parsed outlines", ma.loc())
+    ra = mir.fn("Attributes::remove_attribute")
+    bulk = [callee_key(t) for bi, t in ra.calls(r"retain|extract_if|dedup")]
+    single = [bi for bi, t in ra.calls(r"Vec::remove$|swap_remove$")]
+    in_loop = [bi for bi in single if any(bi in ra.reachable_blocks(s) for s in ra.succs()[bi])]
+    r.inst("remove_attribute|all-duplicates", sample={"bulk": bulk, "single_removals": len(single), "in_loop": len(in_loop)})
+    if not bulk and (not single or len(in_loop) != len(single)):
+        r.violate("remove_attribute|all-duplicates", "remove_attribute removes at most one matching attribute (no bulk removal and the removal is not inside a loop): a duplicate of the name stays visible to has_attribute/get_attribute and in the output", ra.loc())
 
